@@ -381,11 +381,61 @@ def rule_constraints(ctx):
         ctx.check(R, "SignalUse::get_constraints/both-sides-same-signal-and-access", both and match_, t[:200], site(SA, gc))
 
 
+def rule_constraint_lookup(ctx, R="C08.7"):
+    ctx.rule(R, "the constraints listed with a `<--` finding are all constraints that mention the assigned signal (same name and access) on either side - decided by evaluating the lookup on three recorded constraints")
+    import passeval
+    from finfun import Iter, S, Unsupported
+    from passeval import O, Sink
+
+    try:
+        w = passeval.PassWorld([SA], SA)
+    except Exception:
+        return ctx.missing(R, "signal_assignments.rs")
+    w.lenient_opaque = True
+    fields = w.structs.get("SignalUse")
+    cf = w.structs.get("Constraint")
+    meth = [m for m in ("get_constraint_metas", "get_constraints") if ("SignalUse", m) in w.methods]
+    if not fields or not cf or not meth:
+        return ctx.missing(R, "SignalUse / Constraint / lookup method", "fields %s %s methods %s" % (fields, cf, meth))
+
+    def use(nm, acc):
+        return ("O", "use(%s)" % nm, (("name", nm), ("access", acc)))
+
+    def side(*uses):
+        return O("expr", signals_read=("L", tuple(uses)))
+
+    e0, e1 = ("L", ()), ("L", ("i",))
+    metas = [O("meta%d" % i) for i in range(4)]
+    cons = [
+        ("lhs", side(use("a", e0)), side(use("b", e0))),
+        ("none", side(use("b", e0)), side(use("c", e0))),
+        ("rhs", side(use("c", e0)), side(use("b", e0), use("a", e0))),
+        ("other-access", side(use("a", e1)), side()),
+    ]
+    cvals = []
+    for i, (_t, l, r) in enumerate(cons):
+        vals = {"meta": metas[i], "lhe": l, "rhe": r}
+        cvals.append(S("Constraint", *[vals.get(f, O(f)) for f in cf]))
+    selfv = S("SignalUse", *[("L", tuple(cvals)) if f == "constraints" else ("L", ()) for f in fields])
+    fn = w.methods[("SignalUse", meth[0])][0]
+    try:
+        res = w.call_fn(fn, [selfv, "a", e0])
+    except Unsupported as u:
+        return ctx.missing(R, "SignalUse::%s" % meth[0], "outside the evaluator's subset: %s" % u)
+    got = res.items if isinstance(res, Sink) else (res.rest() if isinstance(res, Iter) else (list(res[1]) if isinstance(res, tuple) and res and res[0] == "L" else ([res[2][0]] if isinstance(res, tuple) and len(res) > 2 and res[1] == "Some" else ([] if res == ("E", "Option", "None") else None))))
+    want = [0, 2]
+    idx = None
+    if got is not None:
+        idx = sorted(i for i in range(4) if any(g is metas[i] or g is cvals[i] for g in got))
+    ctx.check(R, "SignalUse::%s/all-constraints-on-the-signal" % meth[0], idx == want and got is not None and len(got) == 2, "for constraints mentioning `a` on the left, not at all, on the right, and with another access, the lookup of `a` returns those numbered %s (expected [0, 2])" % idx, SA)
+
+
 def run(ctx):
     import c18
 
     ctx.include("C08.6", "prerequisite shared with C18.1: the desugaring passes every expression of a statement on (through the matching remover or unchanged) on every path - a statement whose right-hand side is an anonymous component call keeps its `<--` inputs", c18.rule_flow)
     rule_constraints(ctx)
+    rule_constraint_lookup(ctx)
     rule_operator_chain(ctx)
     rule_pass(ctx)
     rule_identity(ctx)
